@@ -2,7 +2,7 @@ import VaxisModel.Model.DynList
 import VaxisModel.Lemmas.DynList
 
 /-! Findings in vxfw/list `Dynamic` (replayed on the real code from /verif/corpus/C19/F119*.ops).
-All five are repaired in /repo; the model carries each repair as a Bool of `Facts`
+All six are repaired in /repo; the model carries each repair as a Bool of `Facts`
 (cursorGuard, insertStops, clampTop, gapAbove, revealAbove), so the witnesses run the model of the
 code BEFORE the repair (`false`) and after it (`true`).
 
@@ -12,7 +12,9 @@ code BEFORE the repair (`false`) and after it (`true`).
   `Children[len-1]` of an empty list.
 * F119c (fixed, /repo c38045a): children inserted above the top ignored a non-zero gap.
 * F119d (fixed, /repo 14bcb60): the builder's content shrinks below the scroll offset: the selection
-  stayed above the viewport. -/
+  stayed above the viewport.
+* F119g (fixed, /repo ee95cee): a scroll pending from before a selection change to an item at or above
+  the top scrolled the newly selected item out of view. -/
 namespace VaxisModel.Witness.F119
 open VaxisModel.Model.DynList VaxisModel.Lemmas.DynList
 
@@ -118,6 +120,20 @@ theorem stale_offset_shows_selection_fixed :
         | .ok (s2, cs) => cs.map (fun c => (c.idx, c.row, c.height)) == [(3, -2, 2), (4, 0, 1)]
             && s2.top == 4 && s2.offset == 0
         | .error _ => false)
+     | .error _ => false) = true := by decide
+
+/-- F119g (fixed, /repo ee95cee): one item of height 1, viewport 1: a wheel-down (pending scroll 3)
+    and then `SetCursor(0)`: before the repair `ensureScroll` kept the pending scroll, and the `Draw`
+    that follows the selection change put the selected item at row −3 — outside the viewport. -/
+theorem pending_scroll_hides_selection_unfixed :
+    (match draw Facts.fixed ⟨0, false⟩ [1] (ensureScrollUnfixed { (wheelDown init).1 with cursor := 0 }) 4 1 with
+     | .ok (_, cs) => cs.map (fun c => (c.idx, c.row, c.height)) == [(0, -3, 1)]
+     | .error _ => false) = true := by decide
+
+/-- … after it the item is at row 0. -/
+theorem pending_scroll_dropped_fixed :
+    (match draw Facts.fixed ⟨0, false⟩ [1] (setCursor (wheelDown init).1 0) 4 1 with
+     | .ok (_, cs) => cs.map (fun c => (c.idx, c.row, c.height)) == [(0, 0, 1)]
      | .error _ => false) = true := by decide
 
 end VaxisModel.Witness.F119
